@@ -3,10 +3,10 @@ import ChfVerif.Model.DiamClient
 namespace Chf.Gen
 open Chf.DiamClient
 
-/-- internal/abmf/abmf.go: SendAccountDebitRequest / HandleCCA -/
-def abmfClient : Cfg := ⟨false, true, true, false, 5000⟩
+/-- internal/abmf/abmf.go: SendAccountDebitRequest / HandleCCA; internal/context: the sm.Client in field "AbmfClient" -/
+def abmfClient : Cfg := ⟨true, true, true, true, 5000, false⟩
 
-/-- internal/rating/rating.go: SendServiceUsageRequest / HandleSUA -/
-def ratingClient : Cfg := ⟨true, true, true, true, 5000⟩
+/-- internal/rating/rating.go: SendServiceUsageRequest / HandleSUA; internal/context: the sm.Client in field "RatingClient" -/
+def ratingClient : Cfg := ⟨true, true, true, true, 5000, false⟩
 
 end Chf.Gen
